@@ -41,6 +41,10 @@ def upd {α : Type} (f : Nat → α) (i : Nat) (v : α) : Nat → α := fun j =>
 def St.init (b : Nat) : St :=
   { ids := List.range b, pc := fun _ => .idle, retries := fun _ => 0, log := [] }
 
+/-- sessions starting on a table with ARBITRARY primary keys `ids₀` (possibly with gaps) -/
+def St.start (ids₀ : List Nat) : St :=
+  { ids := ids₀, pc := fun _ => .idle, retries := fun _ => 0, log := [] }
+
 /-- unfixed code, one step of session i -/
 def stepOld (s : St) (i : Nat) : St :=
   match s.pc i with
